@@ -537,8 +537,72 @@ func propC19(a *Analysis, r *Registry) {
 					b.EqUnder("C-decision", name+"/preds-walked", b.pos(fn), fc, got, env, "!(idom[pred]==-1 && pred!=root)")
 				})
 			}()
+			// every node and every predecessor is gone through: the loop over the nodes visits
+			// 0..n-1 (n the number of nodes, however it is obtained) and the loop over g.In(b)
+			// every predecessor, and neither is left from inside an iteration (a `break` where
+			// `continue` was meant stops at the first node that is not a join)
+			b.guard("C-scan coverage", name+"/all-nodes", func() {
+				where := a.W.InstrPos(app)
+				b.AnyOf(
+					func() { b.FullScan("C-scan coverage", name+"/all-nodes", where, fc, bnode, env.MustParse("len(idom)")) },
+					func() {
+						b.FullScan("C-scan coverage", name+"/all-nodes", where, fc, bnode, env.MustParse("g.NumNodes()"))
+					},
+					func() {
+						b.FullScan("C-scan coverage", name+"/all-nodes", where, fc, bnode, S.MakeFn("len", dst.Args[0]))
+					},
+				)
+				b.FullScan("C-scan coverage", name+"/all-preds", where, fc, pa.Args[1], S.MakeFn("len", pa.Args[0]))
+			})
+			// the only other stores into df put an empty set where there is none (nil), or
+			// initialise df before the walk: a store that replaces a computed set loses it
+			b.guard(rB, name+"/sets-kept", func() {
+				dfv := dst.Args[0]
+				var outer *Loop
+				for _, l := range fc.Ctx.Loops() {
+					if l.Body[hdr.Index] && (outer == nil || len(l.Body) > len(outer.Body)) {
+						outer = l
+					}
+				}
+				nOther, bad := 0, ""
+				fc.Ctx.Instrs(func(in ssa.Instruction) {
+					st, ok := in.(*ssa.Store)
+					if !ok {
+						return
+					}
+					ia, ok := st.Addr.(*ssa.IndexAddr)
+					if !ok || !fc.Val(ia.X).Equal(dfv) {
+						return
+					}
+					if st.Val == ssa.Value(app) {
+						return
+					}
+					nOther++
+					v := fc.Val(st.Val)
+					if ln := S.MakeFn("len", v); !ln.Equal(S.Int(0)) {
+						bad = "a store into df at " + a.W.InstrPos(st) + " puts a set that is not empty: " + clip(v.String(), 80)
+						return
+					}
+					cur := S.MakeFn("idx", dfv, fc.Val(ia.Index))
+					isNil := S.Cmp("==", cur, S.Var("nil", false))
+					sh := st.Block()
+					if lp := fc.Ctx.LoopOf(sh); lp != nil {
+						sh = lp.Header
+					}
+					before := outer != nil && !outer.Body[st.Block().Index] && fc.Ctx.Dominates(sh, outer.Header)
+					if !before && !fc.HoldsAt(st.Block(), isNil) {
+						bad = "a store into df at " + a.W.InstrPos(st) + " is neither before the walk nor guarded by df[i] == nil: it can replace a computed frontier set by the empty set"
+					}
+				})
+				if bad != "" {
+					r.Fail(rB, name+"/sets-kept", b.pos(fn), bad)
+				} else {
+					r.OK(rB, name+"/sets-kept", b.pos(fn), fmt.Sprintf("the %d other store(s) into df put an empty set where there is none", nOther))
+				}
+			})
 			// inserted once: a membership scan precedes the insertion
 			scan := false
+			scanBad := ""
 			fc.Ctx.Instrs(func(in ssa.Instruction) {
 				var cv ssa.Value
 				if ifi2, ok := in.(*ssa.If); ok {
@@ -548,14 +612,77 @@ func propC19(a *Analysis, r *Registry) {
 				}
 				if cv != nil {
 					c := fc.Val(cv).SingleAtom()
+					negated := false
 					if c != nil && c.Name == "cmp!=" {
 						c = S.Not(S.atomRF(c.ID)).SingleAtom()
+						negated = true
 					}
 					if c != nil && c.Name == "cmp==" {
 						for k := 0; k < 2; k++ {
 							if c.Args[k].Equal(bnode) {
 								if ea := c.Args[1-k].SingleAtom(); ea != nil && ea.Name == "idx" && ea.Args[0].Equal(fc.Val(app.Call.Args[0])) {
 									scan = true
+									if ifi2, isIf := in.(*ssa.If); isIf {
+										// the way taken when an element equals b must not lead to the insertion
+										// (within this step of the walk), and the scan must look at every element
+										eq := ifi2.Block().Succs[0]
+										if negated {
+											eq = ifi2.Block().Succs[1]
+										}
+										// (a branch on a flag merged in the same block follows the value the flag
+										// has on the edge the path came in by: `present = true; break` … `if !present`)
+										type edge struct{ from, to int }
+										seen := map[edge]bool{}
+										var reach func(from, bl *ssa.BasicBlock) bool
+										reach = func(from, bl *ssa.BasicBlock) bool {
+											if bl == app.Block() {
+												return true
+											}
+											if bl == hdr || seen[edge{from.Index, bl.Index}] {
+												return false
+											}
+											seen[edge{from.Index, bl.Index}] = true
+											succs := fc.Ctx.LiveSuccs(bl)
+											if bi, isIf := bl.Instrs[len(bl.Instrs)-1].(*ssa.If); isIf && len(bl.Succs) == 2 {
+												cv, neg := bi.Cond, false
+												if u, isU := cv.(*ssa.UnOp); isU && u.Op == token.NOT {
+													cv, neg = u.X, true
+												}
+												if ph, isPhi := cv.(*ssa.Phi); isPhi && ph.Block() == bl {
+													for k, pb := range bl.Preds {
+														if pb == from {
+															if cst, isC := ph.Edges[k].(*ssa.Const); isC && cst.Value != nil {
+																t := cst.Value.String() == "true"
+																if neg {
+																	t = !t
+																}
+																if t {
+																	succs = []*ssa.BasicBlock{bl.Succs[0]}
+																} else {
+																	succs = []*ssa.BasicBlock{bl.Succs[1]}
+																}
+															}
+														}
+													}
+												}
+											}
+											for _, sc := range succs {
+												if reach(bl, sc) {
+													return true
+												}
+											}
+											return false
+										}
+										if reach(ifi2.Block(), eq) {
+											scanBad = "when an element of df[runner] equals b the insertion is still reached (and when it differs the scan stops): b is missing from, or repeated in, the set"
+										}
+										saved := b.earlyExitsOK
+										b.earlyExitsOK = true
+										if !b.FullScan("C-scan coverage", name+"/inserted-once/scan", a.W.InstrPos(ifi2), fc, ea.Args[1], S.MakeFn("len", ea.Args[0])) {
+											scanBad = "the membership scan does not look at every element of df[runner]"
+										}
+										b.earlyExitsOK = saved
+									}
 								}
 							}
 						}
@@ -589,7 +716,9 @@ func propC19(a *Analysis, r *Registry) {
 					}
 				}
 			}
-			if scan {
+			if scan && scanBad != "" {
+				r.Fail(rB, name+"/inserted-once", a.W.InstrPos(app), scanBad)
+			} else if scan {
 				r.OK(rB, name+"/inserted-once", a.W.InstrPos(app), "df[runner] is scanned for b before b is appended")
 			} else {
 				r.Fail(rB, name+"/inserted-once", a.W.InstrPos(app), "b can be appended to df[runner] more than once")
@@ -684,6 +813,80 @@ func propC19(a *Analysis, r *Registry) {
 						}
 					}
 				})
+			}
+			// carving: children[i] = cspace[used : used : used+cspace[i]] for every i, with used the
+			// running sum of the counts from 0 — each list gets exactly the room counted for it,
+			// one after the other (a wrong offset or capacity makes lists overlap, or the slice
+			// expression panic)
+			nCarve := 0
+			for _, sfc := range fc.BoundCallees(1) {
+				sfc := sfc
+				sfc.Ctx.Instrs(func(in ssa.Instruction) {
+					st, ok := in.(*ssa.Store)
+					if !ok {
+						return
+					}
+					ia, ok := st.Addr.(*ssa.IndexAddr)
+					if !ok || sfc.Ctx.LoopOf(st.Block()) == nil {
+						return
+					}
+					v := sfc.Val(st.Val).SingleAtom()
+					if v == nil || v.Name != "slice" || len(v.Args) != 4 {
+						return
+					}
+					nCarve++
+					where := a.W.InstrPos(st)
+					i := sfc.Val(ia.Index)
+					space, lo, hi, mx := v.Args[0], v.Args[1], v.Args[2], v.Args[3]
+					cnt := S.MakeFn("idx", space, i)
+					e := X.EnvFor(fn, "idom")
+					e.Set("used", lo, nil)
+					e.Set("cnt", cnt, nil)
+					b.EqRF(rB, name+"/carve/empty", where, hi, lo, "each child list starts empty (high bound ≡ low bound)")
+					b.EqRF(rB, name+"/carve/capacity", where, mx, e.MustParse("used+cnt"), "its capacity is the number of children counted for it: max ≡ used + cspace[i]")
+					ui, un := recurrenceOrNil(sfc, lo)
+					if ei, en := recurrenceOrNil(sfc, mx); ui == nil && ei != nil {
+						// handed out from the back: the end of node i's room is carried (end' = end − cspace[i]),
+						// starting at the total, which must be the number of nodes that have a parent
+						b.EqRF(rB, name+"/carve/offset-step", where, en, lo, "the previous list ends where this one's room starts: end' ≡ end − cspace[i]")
+						b.FullScan("C-scan coverage", name+"/carve/all-nodes", where, sfc, i, S.MakeFn("len", space))
+						b.EqRF(rB, name+"/carve/len(cspace)", where, S.MakeFn("len", space), e.MustParse("len(idom)"), "the backing array has room for every node: len ≡ len(idom)")
+						ti, tn := recurrenceOrNil(sfc, ei)
+						stepOK := false
+						if ti != nil {
+							if ta := tn.SingleAtom(); ta != nil && ta.Name == "ite" {
+								// counted exactly under the test that skips the -1 sentinel
+								c := ta.Args[0]
+								skip := S.False()
+								if ia := FindFn(c, "idx"); len(ia) == 1 {
+									skip = S.Cmp("==", S.atomRF(ia[0].ID), S.Int(-1))
+								}
+								if (c.Equal(S.Not(skip)) && ta.Args[1].Equal(ei.Add(S.Int(1))) && ta.Args[2].Equal(ei)) || (c.Equal(skip) && ta.Args[2].Equal(ei.Add(S.Int(1))) && ta.Args[1].Equal(ei)) {
+									if ia := FindFn(c, "idx"); len(ia) == 1 && ia[0].Args[0].Equal(env.Vars["idom"].RF) {
+										stepOK = true
+									}
+								}
+							}
+						}
+						if ti == nil || !ti.Equal(S.Int(0)) || !stepOK {
+							r.Fail(rB, name+"/carve/offset-init", where, "the last list does not end at a count of the nodes that have a parent: "+clip(ei.String(), 100))
+						} else {
+							r.OK(rB, name+"/carve/offset-init", where, "the last list ends at the number of counted children (a counter stepped with the counts)")
+						}
+						return
+					}
+					if ui == nil {
+						r.Fail(rB, name+"/carve/offset", where, "the offset is not a running sum carried round the loop: "+clip(lo.String(), 100))
+					} else {
+						b.EqRF(rB, name+"/carve/offset-init", where, ui, S.Int(0), "the first list starts at 0")
+						b.EqRF(rB, name+"/carve/offset-step", where, un, e.MustParse("used+cnt"), "the next list starts where this one's room ends: used' ≡ used + cspace[i]")
+					}
+					b.FullScan("C-scan coverage", name+"/carve/all-nodes", where, sfc, i, S.MakeFn("len", space))
+					b.EqRF(rB, name+"/carve/len(cspace)", where, S.MakeFn("len", space), e.MustParse("len(idom)"), "the backing array has room for every node: len ≡ len(idom)")
+				})
+			}
+			if nCarve != 1 {
+				r.Fail(rB, name+"/carve", b.pos(fn), fmt.Sprintf("expected one store of a three-index slice of the backing array into children[i], found %d", nCarve))
 			}
 			if nCount == 1 && nAppend == 1 {
 				r.OK(rB, name+"/inverts-idom", b.pos(fn), "children are counted per parent and each node is appended to children[idom[node]], both skipping the -1 sentinel")
